@@ -63,6 +63,7 @@ type interpreter struct {
 	stubs              map[string]value // callee name -> replacement callable
 	initDone           bool
 	depth              int
+	curFrame           *frame
 	mapOrder           func([]mapEntry) []mapEntry
 	initFilter         func(*ssa.Package) bool
 }
@@ -170,7 +171,7 @@ func (i *interpreter) indexCheck(idx value, n int, what string) int {
 			oob = st.BVCmp("bvule", st.BVConst(uint64(n), w), s.t)
 		}
 		if i.decide(oob) {
-			i.rtPanic(fmt.Sprintf("runtime error: index out of range [symbolic] with length %d", n))
+			i.rtPanic(fmt.Sprintf("runtime error: index out of range [symbolic] with length %d (%s) idx=%s", n, i.where(), s.t.String()))
 		}
 	}
 	k := i.concretize(idx, what)
@@ -367,6 +368,8 @@ func visitInstr(fr *frame, instr ssa.Instruction) continuation {
 			fr.env[instr] = copyVal(x[i.indexCheck(idx, len(x), "array index")])
 		case string:
 			fr.env[instr] = x[i.indexCheck(idx, len(x), "string index")]
+		case symstr:
+			fr.env[instr] = x[i.indexCheck(idx, len(x), "string index")]
 		default:
 			panic(fmt.Sprintf("unexpected x type in Index: %T", x))
 		}
@@ -401,6 +404,14 @@ func visitInstr(fr *frame, instr ssa.Instruction) continuation {
 	}
 
 	return kNext
+}
+
+// where names the innermost library function being executed.
+func (i *interpreter) where() string {
+	if i.curFrame != nil {
+		return i.curFrame.fn.String()
+	}
+	return "?"
 }
 
 // chain renders the target call stack (innermost first).
@@ -603,7 +614,10 @@ func callSSA(i *interpreter, caller *frame, callpos token.Pos, fn *ssa.Function,
 			}
 		}
 		if ext := externals[name]; ext != nil {
-			return ext(fr, args)
+			r := ext(fr, args)
+			if _, again := r.(runBody); !again {
+				return r
+			}
 		}
 		if fn.Pkg != nil && strings.HasPrefix(fn.Name(), "vf") {
 			if in := intrinsics[fn.Name()]; in != nil {
@@ -639,6 +653,9 @@ func runSSA(i *interpreter, fr0 *frame, fn *ssa.Function, args []value, env []va
 	}
 	defer func() { i.depth-- }()
 
+	prevFrame := i.curFrame
+	i.curFrame = fr
+	defer func() { i.curFrame = prevFrame }()
 	fr.env = make(map[ssa.Value]value)
 	fr.block = fn.Blocks[0]
 	fr.locals = make([]value, len(fn.Locals))
